@@ -334,6 +334,9 @@ func run(c *mon.Ctx) {
 		} else {
 			pk = ref.PaddedPacket(0, r.Intn(16), true, pay)
 		}
+		if r.Chance(3) {
+			pk[1] |= 0x20 // transport_priority
+		}
 		snap := pk
 		pat, err := psi.NewPAT(pk[:])
 		c.Eval(1)
@@ -354,6 +357,10 @@ func run(c *mon.Ctx) {
 		pk := ref.PaddedPacket(0, r.Intn(16), true, pay)
 		if r.Chance(3) && len(pay) < 184 {
 			pk = ref.PayloadPacket(0, r.Intn(16), true, pay) // the section behind adaptation-field stuffing, ending with the packet
+		}
+		if r.Chance(3) {
+			pk[1] |= 0x20 // transport_priority: a header flag next to the PID, legal on any packet
+			c.Count("stream.pat_packet_with_transport_priority")
 		}
 		var st bytes.Buffer
 		before := r.Intn(5)
@@ -410,8 +417,12 @@ func run(c *mon.Ctx) {
 		c.Eval(1)
 		if noPAT {
 			c.Count("stream.without_pat")
-			if err != gots.ErrPATNotFound || pat != nil {
+			// the statement names the error; what accompanies it (nil, an empty table) is not constrained
+			if err != gots.ErrPATNotFound {
 				c.Fail("stream:not-found", fmt.Sprintf("a stream of %d bytes without a complete PID-0 packet returned %v, %v instead of the not-found error", len(in), pat, err), wit{"stream", "", mon.Hex(tail(in, 400)), ""})
+			}
+			if pat != nil {
+				c.Count("stream.value_next_to_not_found")
 			}
 			c.Class(fmt.Sprintf("stream/no-pat/before=%d", min(before, 5)))
 			return
